@@ -40,6 +40,8 @@ type Case struct {
 	Fn    string   `json:"fn"`    // "math.pow", "c19.pInt8"
 	Args  []string `json:"args"`  // value tokens, see model_test.go
 	Route string   `json:"route"` // "run": ECALFunctionAdapter.Run; "ecal": through ECAL source
+	// one call expression reaching several bridged functions (dispatch_test.go); the other fields are unused
+	Dispatch *DispatchCase `json:"dispatch,omitempty"`
 }
 
 func TestMain(m *testing.M) {
@@ -104,6 +106,9 @@ func tooCostly(fn string, vals []interface{}) bool {
 }
 
 func runCase(c Case) *hx.Failure {
+	if c.Dispatch != nil {
+		return runDispatch(c)
+	}
 	if strings.HasPrefix(c.Fn, "plugin.") {
 		return runPlugin(c)
 	}
@@ -233,6 +238,7 @@ func runCase(c Case) *hx.Failure {
 	// between calls)
 	var ret2 interface{}
 	var err2 error
+	held := show(ret) // what the first call returned, as its caller still holds it
 	if f := hx.Guard(func() { ret2, err2 = call() }); f != nil {
 		f.Sig = "again:" + f.Sig
 		f.Msg = "second identical call of " + what + ": " + f.Msg
@@ -241,6 +247,16 @@ func runCase(c Case) *hx.Failure {
 	if f := judge(e, ret2, err2, "second identical call of "+what); f != nil {
 		f.Sig = "again:" + f.Sig
 		return f
+	}
+	if now := show(ret); now != held {
+		return hx.Failf("again:first-result-changed", "%s returned %s; after a second call through the bridge the value the first caller still holds reads %s", what, held, now)
+	}
+	// ... and after a call of another bridged function (results must not live in memory the bridge uses again)
+	if other, ok := funcByName["math.modf"]; ok && other.Adapter != nil {
+		hx.Guard(func() { other.Adapter.Run("c19", scope.NewScope("c19"), make(map[string]interface{}), 0, []interface{}{123.25}) })
+		if now := show(ret); now != held {
+			return hx.Failf("again:first-result-changed", "%s returned %s; after a call of math.Modf through the bridge the value the first caller still holds reads %s", what, held, now)
+		}
 	}
 	return nil
 }
